@@ -27,8 +27,34 @@
    2. `identity_at_point_lifts`
    3. `forced_proof_rejected_outside_bad_set`
    4. `challenge_separation_alpha`, `challenge_separation_widgets`
-   5. `soundness_algebraic` (+ bounds on the bad sets `soundness_bad_sets`)
+   5. `soundness_algebraic` (+ bounds on the bad sets `soundness_bad_sets`,
+      `numerator_degree_bound`), `soundness_witness` (bridge to the model's `sysSat`, `rowsHoldW`,
+      `copyViolation`), `verifier_identity_is_quotient_identity` (the model verifier's linearisation
+      claim `(D − u·Z)(z) = −r₀` is the quotient identity at `z`)
    6. `forged_evaluation_rejected`, `forged_evaluation_rejected_model`, `forged_evaluation_rejected_agm`
+
+  How the pieces compose into "accepted ⇒ satisfiable" (with (A1)–(A3)): acceptance is the batched
+  opening check (C03 `accept_iff_equation`, `code_equation_is_textbook`); by 6 the fifteen
+  evaluations of the proof are the true evaluations of the committed polynomials and
+  `(D − u·Z)(z) = −r₀`; by `verifier_identity_is_quotient_identity` this is `Num(z) = T(z)·Z_H(z)`;
+  by 5 every row holds and there is no copy violation; by `soundness_witness` the layout has a
+  satisfying witness in the model's sense.  The composition itself is NOT stated as one theorem:
+  the missing formal links are exactly (A1)–(A3), the identification `L₁(z), PI(z)` of the model's
+  `lagrangeAndPi` with `L1P.eval`, `P.pi.eval` (hypotheses `hl1`, `hpi` below; C03/C12 give the
+  closed forms `lagrangeAndPi_some`, `lagrangeF_zero_eq_L1P`), and the legacy V1 equation, which
+  does not open `q_arith, q_c, q_l, q_r` (C03 `textbook_equation_written_out_legacy`): for V1 the
+  hypothesis `TrueEvals` is not enforced by the opening check for those four evaluations.
+
+  Forced hypotheses (findings):
+   * `SelReduced` (canonical widget selectors) in the cardinality of `sepBad` — a property of the
+     model's representation (as in C05).
+   * `LayoutWF` in `soundness_witness`: (i) every wire of the layout is an allocated witness (the
+     Rust code asserts it; the model's `sigmaMaps` silently ignores such wires, C05Perm finding);
+     (ii) the LAST gate row reads no next-row wire.  Without (ii) the statement is false: the row
+     after the last gate is a padding row (or row 0, cyclically) whose wire values are fixed
+     points of `σ`, hence unconstrained for an adversary, whereas a widget on the last row reads
+     them.  The composer's gadgets always end on an unselected row, so this is a property of the
+     circuits the crate builds, not enforced by `compile`.
 
   Model objects the statements talk about: `Plonk.rowHolds` (row semantics, `Model/Gate.lean`),
   `Composer.gateAt / piAt` (`Model/System.lean`), `Perm.sigmaFn lay` (the function tabulated by the
@@ -43,6 +69,9 @@ import Plonk.Proofs.SoundnessModel
 import Plonk.Proofs.SoundnessExamples
 import Plonk.Proofs.SoundnessCount
 import Plonk.Proofs.SoundnessInstance
+import Plonk.Proofs.SoundnessWitness
+import Plonk.Proofs.SoundnessVerifier
+import Plonk.Proofs.SoundnessDegree
 
 namespace Plonk.Props.C02
 open Plonk Polynomial Plonk.Quot Plonk.Perm Plonk.Sound
@@ -275,7 +304,7 @@ example : (∀ i < 1, toF ((fun _ => 7) i) ∉ aggBad ((fun _ => [[1, 2]]) i : L
         toF (Poly.evaluate (((fun _ => [[1, 2]]) i : List Poly).getD j []) ((fun _ => 4) i)))) ∧
     (∀ u : F, u ∉ aggBad 1 (fun i => modelDefect ((fun _ => [[1, 2]]) i) ((fun _ _ => 9) i)
       ((fun _ => 4) i) ((fun _ => 7) i))) := by
-  refine ⟨fun i _ => ?_, fun u => ?_⟩
+  refine ⟨fun _ _ => ?_, fun u => ?_⟩
   · show _ ∉ aggBad 1 _
     rw [aggBad_one_empty]; exact Finset.notMem_empty _
   · rw [aggBad_one_empty]; exact Finset.notMem_empty _
@@ -372,5 +401,91 @@ theorem soundness_bad_sets (lay : Composer) (n : Nat) (ω : F) (P : ProverPolys 
 
 /-- non-vacuity: the selectors of the instance are canonical -/
 example : ∀ i < 2 ^ 1, SelReduced (exLay2.gateAt i) := fun i _ => exLay2_selReduced i
+
+/-- **Degree of the numerator.**  If the eleven selector polynomials, the four wire polynomials,
+    the public-input polynomial, the four sigma polynomials and the accumulator all have degree
+    `≤ e` (`1 ≤ e`; for an algebraic adversary `e` is the size of the commit key), then
+    `deg Num ≤ 5e + n`, so `|idBad Num T n| ≤ max (5e + n) (D + n)` for every quotient of degree
+    `≤ D`. -/
+theorem numerator_degree_bound (ω : F) (n : ℕ) (P : ProverPolys F) (ch : Chal F) (s : Seps F)
+    (e : ℕ) (he : 1 ≤ e) (hP : PolysDeg P e) (T : F[X]) (D : ℕ) (hT : T.natDegree ≤ D) :
+    (NumP ω n P ch s).natDegree ≤ 5 * e + n ∧
+    (idBad (NumP ω n P ch s) T n).card ≤ max (5 * e + n) (D + n) :=
+  ⟨natDegree_NumP_le ω n P ch s e he hP,
+    idBad_card_le_of_le _ T n _ D (natDegree_NumP_le ω n P ch s e he hP) hT⟩
+
+/-- non-vacuity: the constant polynomials of the instance have degree `≤ 1` -/
+example : PolysDeg exP3 1 ∧ (0 : F[X]).natDegree ≤ 0 := by
+  refine ⟨?_, by simp⟩
+  constructor
+  · constructor <;> simp [exP3]
+  all_goals simp [exP3]
+
+/-- **Bridge to the model's notions of a satisfying witness.**  Layout `lay` with
+    `lay.paddedSize = 2^k` (the domain the compiler uses), well formed (`LayoutWF`: every wire is an
+    allocated witness; the last gate row reads no next-row wire).  Under the hypotheses of
+    `soundness_algebraic`, the witness assignment `extractW` read off the wire polynomials
+    satisfies every gate row of the layout (`rowsHoldW`), and the layout carrying these witness
+    values (`extractC`: same gates, same public inputs) satisfies the whole padded system
+    (`sysSat`) and has no copy violation against the compiled layout. -/
+theorem soundness_witness (lay : Composer) {k : Nat} (hk : k ≤ 32) (hpad : lay.paddedSize = 2 ^ k)
+    (hn : lay.gates.size ≤ 2 ^ k) (hwf : LayoutWF lay)
+    {ω : F} (hω : IsPrimitiveRoot ω (2 ^ k)) (P : ProverPolys F)
+    (I : KeyInterp ω (2 ^ k) lay P)
+    (β γ : F) (hβ : β ∉ betaBad ω (2 ^ k) lay P) (hγ : γ ∉ gammaBadM ω (2 ^ k) lay P β)
+    (t : F × F × F × F) (ht : t ∉ sepBad ω (2 ^ k) lay P)
+    (α : F) (hα : α ∉ alphaBadM ω (2 ^ k) lay P β γ (sepsOf t))
+    (T : F[X]) (z : F) (hz : z ∉ idBad (NumP ω (2 ^ k) P ⟨β, γ, α⟩ (sepsOf t)) T (2 ^ k))
+    (hid : (NumP ω (2 ^ k) P ⟨β, γ, α⟩ (sepsOf t)).eval z = T.eval z * (z ^ 2 ^ k - 1)) :
+    lay.rowsHoldW (extractW ω P lay) 0 lay.gates.size ∧
+    (∀ x, extractW ω P lay x < R) ∧
+    (extractC ω P lay).gates = lay.gates ∧ (extractC ω P lay).pis = lay.pis ∧
+    (extractC ω P lay).sysSat = true ∧
+    Composer.copyViolation lay (extractC ω P lay) = none := by
+  obtain ⟨h1, h2⟩ := soundness_core lay hk hn hω P I β γ hβ hγ t ht α hα T z hz hid
+  have hconst := (respects_iff_const lay (wireVal ω P)).mp h2
+  have hs := sysSat_extract (ω := ω) (P := P) hwf (by rw [hpad]; exact h1) (by rw [hpad]; exact hn)
+    hconst
+  exact ⟨rowsHoldW_extract hn hwf h1 hconst, extractW_lt ω P lay, rfl, rfl, hs.1, hs.2⟩
+
+/-- non-vacuity: the instance layout is well formed and padded to `2^1` (the other hypotheses are
+    those of `soundness_algebraic`, satisfiable by the example above) -/
+example : LayoutWF exLay2 ∧ exLay2.paddedSize = 2 ^ 1 ∧ exLay2.gates.size ≤ 2 ^ 1 :=
+  ⟨exLay2_wf, exLay2_padded, by decide⟩
+
+/-- **The verifier's equation is the quotient identity.**  `ι` interprets the commitments of the
+    verifier key and of the proof as the polynomials they commit to ((A1); `AgmRep`), the fifteen
+    evaluations of the proof are the true evaluations at `z` and `ωz` (`TrueEvals`, enforced by the
+    opening layer), `zh = zⁿ − 1`, `l1 = L₁(z)`, `piEval = PI(z)` (what `lagrangeAndPi` and
+    `evaluateVanishing` compute).  Then for the model's own `linearizationTerms` and `r0Eval`
+    (the polynomial `D = evalTerms ι (linearizationTerms …)` is the linearisation polynomial):
+      `(D − u·Z)(z) + r₀ = Num(z) − (zⁿ − 1)·T(z)`, `T = t_low + Xⁿ t_mid + X²ⁿ t_high + X³ⁿ t_4`,
+    so the opening claim `(D − u·Z)(z) = −r₀` that the verifier checks holds iff
+    `Num(z) = T(z)·(zⁿ − 1)`, the hypothesis of `soundness_algebraic`. -/
+theorem verifier_identity_is_quotient_identity (ι : G1 → F[X]) (k : VKey) (p : ProofM)
+    (ch : Challenges) (zh l1 piEval : Nat) (ω : F) (n : ℕ) (P : ProverPolys F) (A : AgmRep ι k p P)
+    (E : TrueEvals ω (toF ch.z) p.ev P) (hzh : toF zh = toF ch.z ^ n - 1)
+    (hl1 : toF l1 = (L1P n).eval (toF ch.z)) (hpi : toF piEval = P.pi.eval (toF ch.z)) :
+    ((evalTerms ι (linearizationTerms k p ch zh l1) - toF ch.u • ι p.zC).eval (toF ch.z) +
+        toF (r0Eval p.ev ch l1 piEval) =
+      (NumP ω n P ⟨toF ch.beta, toF ch.gamma, toF ch.alpha⟩
+          ⟨toF ch.rangeSep, toF ch.logicSep, toF ch.fixedSep, toF ch.varSep⟩).eval (toF ch.z) -
+        (toF ch.z ^ n - 1) * (quotientOf ι p n).eval (toF ch.z)) ∧
+    ((evalTerms ι (linearizationTerms k p ch zh l1) - toF ch.u • ι p.zC).eval (toF ch.z) =
+        - toF (r0Eval p.ev ch l1 piEval) ↔
+      (NumP ω n P ⟨toF ch.beta, toF ch.gamma, toF ch.alpha⟩
+          ⟨toF ch.rangeSep, toF ch.logicSep, toF ch.fixedSep, toF ch.varSep⟩).eval (toF ch.z) =
+        (quotientOf ι p n).eval (toF ch.z) * (toF ch.z ^ n - 1)) :=
+  ⟨linearisation_is_quotient_identity ι k p ch zh l1 piEval ω n P A E hzh hl1 hpi,
+    verifier_claim_iff_quotient_identity ι k p ch zh l1 piEval ω n P A E hzh hl1 hpi⟩
+
+/-- non-vacuity: every commitment interpreted as the constant polynomial `7`, wires `1, 2, 3, 4`,
+    `z = 5`, `n = 2`, `ω = −1`: `zh = 24`, `L₁(5) = 3` -/
+example (k : VKey) (p : ProofM) :
+    AgmRep (fun _ => C 7) k { p with ev := exEv3 } exP3 ∧
+    TrueEvals (-1) (toF ({ (default : Challenges) with z := 5 } : Challenges).z)
+      ({ p with ev := exEv3 } : ProofM).ev exP3 ∧
+    toF 24 = toF 5 ^ 2 - 1 ∧ toF 3 = (L1P 2).eval (toF 5) ∧ toF 0 = exP3.pi.eval (toF 5) :=
+  ⟨ex_agmRep k _, ex_trueEvals, ex_verifier_side⟩
 
 end Plonk.Props.C02
